@@ -15,6 +15,15 @@ Import ListNotations.
    values, add_edges_from_matrix) raised RepresenterError; the writer now converts them to Python numbers *)
 Definition fixed_numpy : bool := true.
 Definition dump_representable (fx numpy_values : bool) : bool := fx || negb numpy_values.
+(* populations / connections have no YAML representation.  Since fix D116 (1e88cab) to_yaml REFUSES such a circuit
+   (PyRatesException); before it, from_circuit wrote the population's base node as ONE plain node and no Connectivity, and the
+   re-loaded circuit was silently a different model.  The property's equivalence claim for Population/Connectivity circuits
+   is therefore decided as "refused loudly": the YAML route does not cover them. *)
+Definition fixed_populations_refused : bool := true.
+Inductive pop_outcome := PopRefused | PopCollapsed.           (* what to_yaml does with a circuit that has populations *)
+Definition dump_populations (fx : bool) : pop_outcome := if fx then PopRefused else PopCollapsed.
+(* Spec: the round trip of such a circuit is refused or preserves the dynamics — never a silently different circuit *)
+Definition pop_spec_ok (o : pop_outcome) : bool := match o with PopRefused => true | PopCollapsed => false end.
 
 (* ---------- insertion-ordered dictionaries (Python dict) ---------- *)
 Fixpoint assoc {V} (k : str) (m : list (str * V)) : option V :=
